@@ -196,6 +196,29 @@ func tail(s string, n int) string {
 
 // loadTypes loads the generated packages (types only) to instantiate the contract schemas.
 func loadTypes(root string, variants []instVariant) (map[string]*packages.Package, error) {
+	pkgs, err := loadTypesAll(root, variants)
+	if err != nil {
+		return nil, err
+	}
+	out := map[string]*packages.Package{}
+	for _, p := range pkgs {
+		out[p.Name] = p
+	}
+	return out, nil
+}
+
+// rerun runs the binary once more over a module in which it has already generated.
+func (e *instEnv) rerun(root string) error {
+	run := exec.Command(e.bin, "--config", filepath.Join(root, ".mockery.yml"))
+	run.Dir = root
+	run.Env = cleanEnv("GOFLAGS=-mod=mod", "GOWORK=off")
+	if out, err := run.CombinedOutput(); err != nil {
+		return fmt.Errorf("mockery failed: %v\n%s", err, tail(string(out), 2000))
+	}
+	return nil
+}
+
+func loadTypesAll(root string, variants []instVariant) ([]*packages.Package, error) {
 	var pats []string
 	for _, v := range variants {
 		pats = append(pats, "./"+v.pkg)
@@ -209,7 +232,6 @@ func loadTypes(root string, variants []instVariant) (map[string]*packages.Packag
 	if err != nil {
 		return nil, err
 	}
-	out := map[string]*packages.Package{}
 	for _, p := range pkgs {
 		if len(p.Errors) > 0 {
 			var msgs []string
@@ -218,9 +240,8 @@ func loadTypes(root string, variants []instVariant) (map[string]*packages.Packag
 			}
 			return nil, fmt.Errorf("generated package %s does not type-check:\n%s", p.PkgPath, strings.Join(msgs, "\n"))
 		}
-		out[p.Name] = p
 	}
-	return out, nil
+	return pkgs, nil
 }
 
 // structural facts decided by go/types (like the direct bindings of C16)
